@@ -105,7 +105,9 @@ def _build(d):
             a = d.choice(cand)
             names.append({'name': 'Nm%d' % j, 'addr': a})
         if d.pick(2):
-            names.append({'name': 'NmRange', 'range': 'Sheet1!A1:B2'})
+            exts = ['Sheet1!A1:B2', 'Sheet1!A1:A3', 'Sheet1!A1:C2',
+                    'Sheet1!B1:B3', 'Sheet1!A2:B3', 'Sheet1!A1:C3']
+            names.append({'name': 'NmRange', 'range': d.choice(exts)})
             # a formula using the names
             tgt = 'Sheet1!F1'
             model['formulas'][tgt] = ['op', '+', ['call', 'SUM', [
@@ -160,7 +162,14 @@ def _build(d):
         while len(changes) < nsets:
             changes.append([d.choice(inputs), d.choice([3, 8, 50])])
         changes = changes[:nsets]
-    return {'model': model, 'focus': sorted(set(focus)), 'pre': bool(
+    sib = None
+    if any('range' in n for n in names) and d.pick(2):
+        # a SIBLING model handled first in the same process: the same names
+        # for other cells / another extent (a later revision of a workbook)
+        cur = [n['range'] for n in names if 'range' in n][0]
+        sib = d.choice([e for e in exts if e != cur])
+    return {'sibling': sib,
+            'model': model, 'focus': sorted(set(focus)), 'pre': bool(
         d.pick(2)), 'changes': changes, 'names': names, 'prehist': prehist,
         'skipfirst': d.pick(3) == 0, 'again': d.pick(2) == 0, 'raw': raw}
 
@@ -258,6 +267,21 @@ def _ref_model(case, model):
 
 
 def judge(case):
+    if case.get('sibling'):
+        # the sibling revision first (judged like any other model), then
+        # this one: nothing learnt from the first may reach the second
+        import copy
+        sib = copy.deepcopy(case)
+        sib['sibling'] = None
+        for n in sib['names']:
+            if 'range' in n:
+                n['range'] = case['sibling']
+        rs = judge(sib)
+        if rs.fails:
+            return rs
+        res = judge(dict(case, sibling=None))
+        res.labels = tuple(res.labels) + ('after-sibling-model',)
+        return res
     res = Result()
     xl = lib.lib()
     model = FIXED[case['fixed']] if 'fixed' in case else case['model']
